@@ -44,3 +44,20 @@ def twin(seed, n):
 
 def reuse(seed, n):
     return _mk("reuse", "hc", gen_hc.reuse_case, n, seed * 101 + 10)
+
+import gen_ep
+
+def ep_lifecycle(seed, n):
+    return _mk("lifecycle", "ep", gen_ep.lifecycle_case, n, seed * 101 + 11)
+
+def ep_forge(seed, n):
+    return _mk("forge", "ep", gen_ep.forge_case, n, seed * 101 + 12)
+
+def ep_limits(seed, n):
+    return _mk("limits", "ep", gen_ep.limits_case, n, seed * 101 + 13)
+
+def ep_amplify(seed, n):
+    return _mk("amplify", "ep", gen_ep.amplify_case, n, seed * 101 + 14)
+
+def ep_timers(seed, n):
+    return _mk("timers", "ep", gen_ep.timers_case, n, seed * 101 + 15)
